@@ -79,26 +79,17 @@ func run(c *lib.Ctx) {
 		timeout = 100 * time.Minute
 	}
 	var wg sync.WaitGroup
-	var startMu sync.Mutex
 	sem := make(chan struct{}, 16)
 	for _, sp := range specs {
 		sp := sp
 		wg.Add(1)
 		sem <- struct{}{}
-		// c.Sub numbers its stderr files with a counter read at its start;
-		// start children one at a time so that each sees its own number
-		startMu.Lock()
-		seq := c.Get("_sub_seq")
 		go func() {
 			defer wg.Done()
 			defer func() { <-sem }()
 			res := c.Sub(sp.mode, sp.args, nil, nil, timeout)
 			merge(c, sp, res)
 		}()
-		for i := 0; c.Get("_sub_seq") == seq && i < 20000; i++ {
-			time.Sleep(100 * time.Microsecond)
-		}
-		startMu.Unlock()
 	}
 	wg.Wait()
 
